@@ -102,7 +102,11 @@ func escapedForm(p, s string) bool {
 // bracketCheck expands the bracket expression open + quoted s + "z]" in Pattern mode and matches it against single characters: it must
 // match exactly the characters of set (the quoted characters stand for themselves: no range, no negation, no early end).
 func bracketCheck(open, quoted, s string, set string) string {
-	src := "x " + open + quoted + "z]\n"
+	return bracketCheck2(open, quoted, s, set, "z]")
+}
+
+func bracketCheck2(open, quoted, s string, set, closing string) string {
+	src := "x " + open + quoted + closing + "\n"
 	cmds, _, err := parser.ParseCommands(nil, "t", src)
 	if err != nil || len(cmds) != 1 {
 		return "" // (the quoting of s glued to the bracket is not a word of its own: nothing to check)
@@ -174,6 +178,10 @@ func quoteH(line string) string {
 			}
 			if r := bracketCheck("[", styles[name], s, "z"+s); r != "" {
 				return r + ":" + name + ":first"
+			}
+			// after "[[" a quoted . = : opens no collating symbol, equivalence class or character class
+			if r := bracketCheck2("[[", styles[name], s, "["+s, "]"); r != "" {
+				return r + ":" + name + ":second"
 			}
 		}
 	}
